@@ -165,6 +165,10 @@ func classify(txType int32, msg string) string {
 		return "mainnet"
 	case has("recoverPubkey failed"):
 		return "recover"
+	case has("not enough rpg"):
+		return "rpg"
+	case has("fail to call create2"):
+		return "create2"
 	case has("miner type error"):
 		return "type"
 	case has("not enough stake, minerId"):
@@ -390,6 +394,13 @@ func (w *world) dumpParts(all bool) string {
 		}
 	}
 	sb.WriteString(" R=" + strings.Join(r, ","))
+	vt, vd := mm.GetValidatorsStake(w.ids, w.adb)
+	vs := make([]string, 0)
+	for a, v := range vd {
+		vs = append(vs, hx.Hex(a[:])+":"+strconv.FormatUint(v, 10))
+	}
+	sort.Strings(vs)
+	sb.WriteString(fmt.Sprintf(" S=%d/%s", vt, strings.Join(vs, ",")))
 	sb.WriteString(" K=" + w.pkStr())
 	x := hx.Guard(func() string { return w.readerStr() })
 	if strings.HasPrefix(x, "PANIC") {
@@ -439,6 +450,76 @@ var badType = map[string]int32{"apply-json": types.TransactionTypeMinerApply, "a
 
 type interp struct {
 	w *world
+}
+
+// nodeContractCode: a stand-in for the main-node contract (function 0x412a5a6d): three empty logs and a fourth whose
+// 32-byte data word is ORIGIN xor 0x5a…5a, which is what minerNodeExecutor.generateContractAddress reads the new
+// controlling address from.
+func nodeContractCode() []byte {
+	b := []byte{0x32, 0x73} // ORIGIN PUSH20
+	for i := 0; i < 20; i++ {
+		b = append(b, 0x5a)
+	}
+	b = append(b, 0x18, 0x60, 0x00, 0x52) // XOR PUSH1 0 MSTORE
+	for i := 0; i < 3; i++ {
+		b = append(b, 0x60, 0x00, 0x60, 0x00, 0xa0) // LOG0(0,0)
+	}
+	return append(b, 0x60, 0x20, 0x60, 0x00, 0xa0, 0x00) // LOG0(0,32) STOP
+}
+
+// stubGroups: types.GroupChainHelper / types.ForkHelper whose available groups have the given dismiss heights.
+type stubGroups struct{ dismiss []uint64 }
+
+func (g *stubGroups) GetAvailableGroupsByMinerId(height uint64, minerId []byte) []*types.Group {
+	res := make([]*types.Group, 0)
+	for _, d := range g.dismiss {
+		res = append(res, &types.Group{Header: &types.GroupHeader{DismissHeight: d}})
+	}
+	return res
+}
+func (g *stubGroups) GetGroupById(id []byte) *types.Group          { return nil }
+func (g *stubGroups) GetBlockHeader(height uint64) *types.BlockHeader { return nil }
+
+var groupStub = &stubGroups{}
+
+// refundHeight runs the real RefundManager.getRefundHeight under the given fork flags (Proposal012 / Proposal004 active,
+// Proposal011Block == now) with the given groups, then restores the session's configuration.
+func refundHeight(p012, p004, p011now bool, now, left uint64, typ byte, dismiss []uint64, fork bool) uint64 {
+	saved := common.LocalChainConfig
+	savedH := common.GetBlockHeight()
+	defer func() { common.LocalChainConfig = saved; common.SetBlockHeight(savedH) }()
+	c := saved
+	const never = ^uint64(0)
+	c.Proposal012Block, c.Proposal004Block, c.Proposal011Block = never, never, never
+	if p012 {
+		c.Proposal012Block = 0
+	}
+	if p004 {
+		c.Proposal004Block = 0
+	}
+	if p011now {
+		c.Proposal011Block = now
+	}
+	common.LocalChainConfig = c
+	common.SetBlockHeight(now)
+	groupStub.dismiss = dismiss
+	sit := "verify"
+	if fork {
+		sit = "fork"
+	}
+	// getRefundHeight is unexported: it is reached through the exported GetRefundStake (first result) on a scratch
+	// account state holding one miner of the given type whose whole stake `left` stays locked (refund of 0)
+	adb, err := middleware.AccountDBManagerInstance.GetAccountDBByHash(common.Hash{})
+	if err != nil {
+		panic(err)
+	}
+	id, acct := []byte{0xc2, 0x0e}, []byte{0xac}
+	service.MinerManagerImpl.InsertMiner(&types.Miner{Id: id, Type: typ, Stake: left, Account: acct, PublicKey: []byte{1}, VrfPublicKey: []byte{1}}, adb)
+	h, _, _, rerr := service.RefundManagerImpl.GetRefundStake(now, id, acct, 0, adb, sit)
+	if rerr != nil {
+		panic(rerr)
+	}
+	return h
 }
 
 var devConfig *common.ChainConfig
@@ -537,6 +618,28 @@ func (ip *interp) exec(line string) string {
 		}
 		op := map[string]byte{"vmstake": 0xee, "vmunstake": 0xef, "vmunstakeall": 0xeb}[t[0]]
 		return w.runStakeOp(op, bs(t[1]), bs(t[2]), amt)
+	case "nodecode":
+		w.adb.SetCode(common.MainNodeContract(), nodeContractCode())
+		return "ok"
+	case "node":
+		return w.runTx(types.TransactionTypeOperatorNode, bs(t[1]), "")
+	case "purge":
+		ids, _ := csvBytes(t[1])
+		wl := map[string]byte{}
+		for _, id := range ids {
+			wl[common.ToHex(id)] = 0
+		}
+		service.MinerManagerImpl.RemoveUnusedValidator(w.adb, wl)
+		return "ok"
+	case "rheight":
+		// rheight <p012> <p004> <p011now> <fork> <now> <left> <type> <dismiss csv|.>
+		ds := []uint64{}
+		if t[8] != "." {
+			for _, x := range strings.Split(t[8], ",") {
+				ds = append(ds, u64(x))
+			}
+		}
+		return strconv.FormatUint(refundHeight(t[1] == "1", t[2] == "1", t[3] == "1", u64(t[5]), u64(t[6]), byte(u64(t[7])), ds, t[4] == "1"), 10)
 	case "rewind":
 		return w.rewind()
 	case "endblock":
